@@ -197,6 +197,7 @@ structure Ctx where
   p : Profile
   c : Codec
   name : String
+  symbols : List Nat := []
 
 def item (c : Codec) (i : Nat) : Nat := c.items.getD (i % c.items.length) 0
 
@@ -599,6 +600,16 @@ def query (x : Ctx) (q : String) : Q String := do
     if k * c.width > 64 then throw .unsup
     let r ← qres (seqRes (Kmer.kmers x.p c k bs)); pure (natsStr r)
   | "kmer" => kmerQuery x
+  | "sym" => do
+    let b ← qlift num
+    let b := b % 256
+    let o (v : Option Nat) : String := match v with | some s => hex2 s | none => "none"
+    -- `unsafe_*` tables: none = panic
+    let u (v : Option Nat) : String := match v with | some s => hex2 s | none => "panic"
+    let un (has : Bool) (f : Nat → Option Nat) : String :=
+      if has ∧ x.symbols.contains b then u (f b) else "none"
+    pure s!"{c.width} {o (c.tryFromBits b)} {u (c.unsafeFromBits b)} {o (c.tryFromAscii b)} {u (c.unsafeFromAscii b)} {c.toChar b} {un (hasComp c) c.comp} {un (hasMask c) c.mask} {un (hasMask c) c.unmask}"
+  | "items" => pure (String.join (c.items.map hex2))
   | _ => throw (.badOp s!"unknown query {q}")
 
 def evalLine (p : Profile) (line : String) : String :=
@@ -608,7 +619,7 @@ def evalLine (p : Profile) (line : String) : String :=
     match Gen.codecByName codec with
     | none => "bad-op codec"
     | some cp =>
-      let x : Ctx := { p := p, c := cp p, name := codec }
+      let x : Ctx := { p := p, c := cp p, name := codec, symbols := Gen.symbolsOf codec p }
       match (query x q).run rest with
       | .ok (s, _) => s!"ok {s}"
       | .error f => failStr f
